@@ -54,10 +54,11 @@ var bhKindWeights = map[string]int{
 	"setwithdraw": 2, "fundpool": 2, "unjail": 3, "createval": 2, "propose": 4, "deposit": 3, "vote": 6,
 	"vest": 6, "clawback": 3, "convertvest": 1, "liquidate": 5, "redeem": 4, "daofund": 4, "daotransfer": 2, "daotransferamt": 2,
 	"convertcoin": 4, "converterc20": 3, "authzgrant": 2, "authzexec": 2, "ethsend": 6, "ethcall": 10, "ethpcall": 6,
+	"ethbatch": 2,
 }
 
 var bhFocusKinds = map[string][]string{
-	"x/evm":           {"ethsend", "ethcall", "ethpcall"},
+	"x/evm":           {"ethsend", "ethcall", "ethpcall", "ethbatch"},
 	"x/evm/statedb":   {"ethcall", "ethpcall"},
 	"x/evm/keeper":    {"ethcall", "ethpcall", "ethsend"},
 	"precompiles":     {"ethcall", "ethpcall"},
@@ -682,6 +683,24 @@ func (g *bhGenerator) genTx(h *histRun, b *bhBlock, blockIdx, i int) *bhTx {
 		t.A = g.fraction(new(big.Int).Quo(spend(f), big.NewInt(10)))
 		if r.Chance(15) {
 			t.T = bhNU + r.Intn(bhNC)
+		}
+	case "ethbatch":
+		t.A = big.NewInt(int64(1 + r.Intn(5000))).String()
+		t.V = r.Intn(2)
+		switch {
+		case r.Chance(40): // all messages properly signed
+			t.N = 0
+		case r.Chance(50): // two messages invalid in different ways (the result must name the first)
+			a, b := 1+r.Intn(3), 1+r.Intn(3)
+			for b == a {
+				b = 1 + r.Intn(3)
+			}
+			t.N = int64(a + 4*b)
+			if r.Chance(30) {
+				t.N = int64(4*a + 16*b)
+			}
+		default:
+			t.N = int64(r.Intn(64))
 		}
 	case "ethcall":
 		t.T = bhNU + r.Intn(bhNC)
